@@ -332,8 +332,8 @@ Proof. vm_compute. repeat split. Qed.
 Print Assumptions C12_writer_nonvacuous.
 
 (* Write order = call order is also an assumption about the CALLERS: [Ck] marshals the image and takes the write slot
-   in one step.  internal/ipoe checkpointSession (open finding concurrent-checkpoint-reorder/ipoe, fix proposed)
-   marshals under sess.mu but takes the slot after unlocking, so two concurrent checkpoints of one session can take
+   in one step.  internal/ipoe checkpointSession before 27a2839 (finding concurrent-checkpoint-reorder/ipoe, fixed)
+   marshalled under sess.mu but took the slot after unlocking, so two concurrent checkpoints of one session can take
    their slots in the reverse order of their images; the writer then faithfully makes the OLDER image (1) the final
    one although the newer image (2) was marshalled later.  Reproduced on the real code by the `race` harness. *)
 Theorem C12_concurrent_checkpoint_refuted :
